@@ -17,7 +17,7 @@ PROPS = {
     "C02": dict(module="MRB.Props.C02", level="proof", profiles=[], engines=["conc"], search=[("conc", ["C03"])], gen_items=["concAcc", "wiring", "skeletons"],
                 trusted=["release/acquire fragment of C11 in view-based operational form (exact for single-writer locations)", "slot contents as one global memory, justified by the race-freedom theorem",
                          "disciplined clients: producer writes before moving on, worker applies f once per item, consumer reads before moving on"]),
-    "C03": dict(module="MRB.Props.C03", level="proof", profiles=[prof("detached", 200, 2000), prof("reset", 150, 1500)], engines=["conc"], gen_items=["concAcc", "wiring", "skeletons"],
+    "C03": dict(module="MRB.Props.C03", level="proof", profiles=[prof("detached", 200, 2000), prof("reset", 150, 1500)], engines=["conc"], search=[("conc", ["C02"])], gen_items=["concAcc", "wiring", "skeletons"],
                 trusted=["release/acquire fragment of C11 in view-based operational form (exact for single-writer locations)", "compiler and hardware respect it",
                          "user code accesses only the granted window"]),
     "C10": dict(module="MRB.Props.C10", level="proof", profiles=[], engines=["conc"], gen_items=["concAcc", "skeletons", "loops", "check"],
@@ -32,14 +32,14 @@ PROPS = {
                 gen_items=["workReset", "consReset", "check", "skeletons"], trusted=SEQ_TRUST),
     "C12": dict(module="MRB.Props.C12", level="proof", profiles=[prof("detached", 500)], engines=["adetprobe"],
                 gen_items=["detSetIndex", "detReset", "detAdvance", "detGoBack", "detSync", "adetAdvance", "adetGoBack", "adetSync", "skeletons"], trusted=SEQ_TRUST),
-    "C07": dict(module="MRB.Props.C07", level="proof", profiles=[prof("drops", 500)], engines=["conc"],
+    "C07": dict(module="MRB.Props.C07", level="proof", profiles=[prof("drops", 500), prof("async", 150, 1500, features=["async"], binary="asyncdiff")], engines=["conc"],
                 gen_items=["skeletons", "concAcc", "localAcc"], trusted=SEQ_TRUST + ["allocator outside the model"]),
-    "C08": dict(module="MRB.Props.C08", level="proof", profiles=[prof("own", 600)], also_tags=[],
+    "C08": dict(module="MRB.Props.C08", level="proof", profiles=[prof("own", 600), prof("asyncown", 150, 1500, features=["async"], binary="asyncdiff")], also_tags=[],
                 gen_items=["storeKinds", "pins"], trusted=SEQ_TRUST + ["live values are never all-zero bytes (property assumption)"]),
     "C09": dict(module="MRB.Props.C09", level="proof", profiles=[prof("own", 600)],
                 gen_items=["storeKinds", "pins"], trusted=SEQ_TRUST + ["live values are never all-zero bytes (property assumption)"]),
-    "C13": dict(module="MRB.Props.C13", level="translation_validation", profiles=[prof("all", 800), prof("own", 300)], engines=["adetprobe"],
-                also_tags=["C01", "C04", "C05", "C06", "C07", "C08", "C09", "C11", "C12", "C18"],
+    "C13": dict(module="MRB.Props.C13", level="translation_validation", profiles=[prof("all", 800), prof("own", 300), prof("async", 200, 2000, features=["async"], binary="asyncdiff"), prof("asyncown", 100, 1000, features=["async"], binary="asyncdiff")], engines=["adetprobe"],
+                also_tags=["C01", "C04", "C05", "C06", "C07", "C08", "C09", "C11", "C12", "C14", "C18"],
                 gen_items=["concAcc", "localAcc", "adetGoBack", "adetAdvance", "adetSync"], trusted=SEQ_TRUST),
     "C14": dict(module="MRB.Props.C14", level="proof",
                 profiles=[prof("async", 400, features=["async"], binary="asyncdiff"), prof("asyncown", 300, features=["async"], binary="asyncdiff")],
